@@ -458,4 +458,207 @@ def otherFile (t : Table) : Bool :=
 
 def specSniffOther : Fmt := .unknown
 
+/-! ## the public functions on the decoded text of a file
+
+What each public function of `thermo.py` computes from the lines of the file at `path` (decoded by the
+`utf-8-sig` codec with universal newlines, terminators kept): every one of them opens the file anew,
+nothing is kept between calls. -/
+
+/-- `icap_csv_sample_format(path)`: a substring test on the first and the third line as they are -/
+def sniffText (lines : List String) : Fmt := sniff (lines.map fun l => [l])
+
+/-- the channel a data reader selects -/
+def chanOf (useAnalog : Bool) : String := if useAnalog then "Analog" else "Counter"
+
+/-- `icap_csv_rows_read_data` / `icap_csv_columns_read_data (path, delimiter, comma_decimal, use_analog)`;
+`explicit = none`: `delimiter=None`, the first character of the file -/
+def readDataText {α : Type} (x : Ext α) (rows : Bool) (explicit : Option Char) (comma useAnalog : Bool)
+    (lines : List String) : Option (Img α) :=
+  (tableOf explicit lines).bind fun t =>
+    if rows then readRows x comma (chanOf useAnalog) t else readCols x comma (chanOf useAnalog) t
+
+/-- `icap_csv_rows_read_params` / `icap_csv_columns_read_params (path, delimiter, comma_decimal)` -/
+def readParamsText (x : Ext V) (rows : Bool) (explicit : Option Char) (comma : Bool) (lines : List String) : Option Params :=
+  (tableOf explicit lines).bind (readParams x rows comma)
+
+/-- what `load(path, use_analog, full)` hands back -/
+inductive LoadOut
+  | raises                                            -- ValueError (unknown format) or the reader's exception
+  | data (img : Img V)                                -- `full=False`: the array alone
+  | full (img : Img V) (params : Option Params)       -- `full=True`: `(array, params)`, `none` = `{}`
+
+/-- `load(path, use_analog, full=False)` on the table: sniff, detect decimal commas, read the requested
+channel; the parameters are not read at all -/
+def loadData (x : Ext V) (delim : Char) (t : Table) (useAnalog : Bool) : LoadOut :=
+  let comma := detectComma delim t
+  match sniff t with
+  | .unknown => .raises
+  | .rows => match readRows x comma (chanOf useAnalog) t with | none => .raises | some img => .data img
+  | .columns => match readCols x comma (chanOf useAnalog) t with | none => .raises | some img => .data img
+
+/-- … on the text itself (as `loadText`) -/
+def loadDataText (x : Ext V) (lines : List String) (useAnalog : Bool) : LoadOut :=
+  match (lines.headD "").toList with
+  | [] => .raises
+  | d :: _ => loadData x d (lines.map (splitLine d)) useAnalog
+
+/-- `load(path, use_analog, full)` -/
+def loadCall (x : Ext V) (lines : List String) (useAnalog full : Bool) : LoadOut :=
+  if full then
+    match loadText x lines useAnalog with
+    | .unknownFormat => .raises
+    | .readError => .raises
+    | .ok img p => .full img p
+  else loadDataText x lines useAnalog
+
+/-! ## histories: several calls in one process on paths that are written again in between
+
+The code keeps no state between calls (no module-level variable, no cache): the result of a call is a
+function of the text the file holds when the call is made — whatever the same path held at an earlier
+call, whatever the modification time of the file, however often it was imported before. -/
+
+/-- one call of a public function on a path -/
+inductive Call
+  | sniff
+  | load (useAnalog full : Bool)
+  | data (rows : Bool) (explicit : Option Char) (comma useAnalog : Bool)
+  | params (rows : Bool) (explicit : Option Char) (comma : Bool)
+
+/-- what a call hands back -/
+inductive Out
+  | fmt (f : Fmt)
+  | load (r : LoadOut)
+  | img (r : Option (Img V))
+  | params (r : Option Params)
+  | noFile                                            -- the path was never written: FileNotFoundError
+
+/-- the function of the file's text that each public function computes -/
+def callText (x : Ext V) (lines : List String) : Call → Out
+  | .sniff => .fmt (sniffText lines)
+  | .load ua full => .load (loadCall x lines ua full)
+  | .data rows explicit comma ua => .img (readDataText x rows explicit comma ua lines)
+  | .params rows explicit comma => .params (readParamsText x rows explicit comma lines)
+
+/-- a file: its modification time (`st_mtime_ns`) and the lines of its decoded text -/
+structure File where
+  mtime : Nat
+  lines : List String
+
+/-- path ↦ file -/
+abbrev FS := Nat → Option File
+
+def FS.write (fs : FS) (p : Nat) (f : File) : FS := fun q => if q = p then some f else fs q
+
+inductive Event
+  | write (path : Nat) (mtime : Nat) (lines : List String)
+  | call (path : Nat) (c : Call)
+
+/-- the results of the calls of a history, in order: each call reads the file that is at the path then -/
+def runHistory (x : Ext V) : FS → List Event → List Out
+  | _, [] => []
+  | fs, .write p mt ls :: rest => runHistory x (fs.write p { mtime := mt, lines := ls }) rest
+  | fs, .call p c :: rest =>
+    (match fs p with
+      | none => Out.noFile
+      | some f => callText x f.lines c) :: runHistory x fs rest
+
+/-- what was exported to a path: one acquisition in one of the two layouts with a delimiter and a decimal
+mark (`dec = true`: decimal commas), or a text that is no export -/
+inductive Content
+  | rows (delim : Char) (dec : Bool) (a : Acq)
+  | cols (delim : Char) (dec : Bool) (a : Acq)
+  | other (lines : List String)
+
+/-- the decoded text of the file -/
+def Content.text (sh : Nat → String) : Content → List String
+  | .rows d _ a => renderText d (renderRows sh a)
+  | .cols d _ a => renderText d (renderCols sh a)
+  | .other ls => ls
+
+/-- index of the exported channel with that name -/
+def Acq.chanIdx (a : Acq) (name : String) : Option Nat :=
+  let i := a.channels.findIdx (· == name)
+  if i < a.channels.length then some i else none
+
+/-- the specification of one export for a data call: the image of the requested channel, when it was exported -/
+def specData (x : Ext V) (dec : Bool) (a : Acq) (useAnalog : Bool) : Option (Img V) :=
+  (a.chanIdx (chanOf useAnalog)).map (specImg x dec a)
+
+/-- … for the parameters: the times of the first element and the rounded mean interval when the Time
+channel was exported, otherwise there are none -/
+def specPar (x : Ext V) (dec : Bool) (a : Acq) : Option Params :=
+  (a.chanIdx "Time").map (specParams x dec a)
+
+/-- the specification of one call on a path that holds `c`, from what was exported alone; `none`: the
+property says nothing (a reader for the other layout, with the wrong decimal mark or a delimiter the
+file does not use, a channel that was not exported, `load` of a text that is no export) -/
+def specCall (x : Ext V) : Content → Call → Option Out
+  | .rows .., .sniff => some (.fmt .rows)
+  | .cols .., .sniff => some (.fmt .columns)
+  | .other _, .sniff => some (.fmt specSniffOther)
+  | .rows _ dec a, .load ua full | .cols _ dec a, .load ua full =>
+    (specData x dec a ua).map fun img => .load (if full then .full img (specPar x dec a) else .data img)
+  | .rows d dec a, .data true explicit comma ua | .cols d dec a, .data false explicit comma ua =>
+    if comma == dec && (explicit.isNone || explicit == some d) then (specData x dec a ua).map fun img => .img (some img) else none
+  | .rows d dec a, .params true explicit comma | .cols d dec a, .params false explicit comma =>
+    if comma == dec && (explicit.isNone || explicit == some d) then (specPar x dec a).map fun p => .params (some p) else none
+  | _, _ => none
+
+inductive SEvent
+  | write (path : Nat) (mtime : Nat) (c : Content)
+  | call (path : Nat) (c : Call)
+
+/-- the files a history of exports writes and the calls it makes -/
+def SEvent.event (sh : Nat → String) : SEvent → Event
+  | .write p mt c => .write p mt (c.text sh)
+  | .call p c => .call p c
+
+/-- the specification of a history: every call is judged by what was last exported to its path -/
+def specHistory (x : Ext V) : (Nat → Option Content) → List SEvent → List (Option Out)
+  | _, [] => []
+  | cs, .write p _ c :: rest => specHistory x (fun q => if q = p then some c else cs q) rest
+  | cs, .call p c :: rest => ((cs p).bind fun k => specCall x k c) :: specHistory x cs rest
+
+/-! ## from the characters of the file to its lines: `open(path, "r", encoding="utf-8-sig")`
+
+Every function opens the file in text mode with the `utf-8-sig` codec and the default `newline=None`.
+Given the characters the bytes decode to as plain UTF-8 (a byte order mark is the character U+FEFF): the
+codec drops one leading U+FEFF, universal newlines turn `\r\n` and a lone `\r` into `\n`, and iteration /
+`readline` hand out the lines with their terminator (the last one possibly without). -/
+
+def bomChar : Char := Char.ofNat 0xFEFF
+
+/-- the `utf-8-sig` codec after UTF-8 decoding: one leading byte order mark is not part of the text -/
+def stripBom : List Char → List Char
+  | [] => []
+  | c :: t => if c == bomChar then t else c :: t
+
+/-- universal newlines (`newline=None`) -/
+def univNl : List Char → List Char
+  | [] => []
+  | [c] => [if c == '\r' then '\n' else c]
+  | c :: d :: t =>
+    if c == '\r' then (if d == '\n' then '\n' :: univNl t else '\n' :: univNl (d :: t))
+    else c :: univNl (d :: t)
+
+/-- the lines of a translated text, terminators kept -/
+def splitKeep : List Char → List (List Char)
+  | [] => []
+  | c :: t =>
+    if c == '\n' then [c] :: splitKeep t
+    else match splitKeep t with
+      | [] => [[c]]
+      | h :: r => (c :: h) :: r
+
+/-- the lines the text layer hands out for a file with these characters -/
+def decodeLines (cs : List Char) : List String := (splitKeep (univNl (stripBom cs))).map String.ofList
+
+/-- a line as it stands in the file: its terminator `\n` written as `eol` -/
+def rawLine (eol : List Char) (l : String) : List Char := l.toList.dropLast ++ eol
+
+/-- the characters of the file that holds these lines (each ending in `\n`), with or without a byte order
+mark, with `eol` (`\n` or `\r\n`) at the end of every line -/
+def rawText (bom : Bool) (eol : List Char) (lines : List String) : List Char :=
+  (if bom then [bomChar] else []) ++ lines.flatMap (rawLine eol)
+
 end Pew.Thermo
